@@ -353,9 +353,13 @@ class SparselyBin(Factory, Container):
                 self.nanflow.fill(datum, weight)
             else:
                 b = self.bin(q)
-                if b not in self.bins:
-                    self.bins[b] = self.value.copy()
-                self.bins[b].fill(datum, weight)
+                if b in self.bins:
+                    self.bins[b].fill(datum, weight)
+                else:
+                    # only insert the new bin once its first fill has succeeded (for rollback)
+                    sub = self.value.copy()
+                    sub.fill(datum, weight)
+                    self.bins[b] = sub
             # no possibility of exception from here on out (for rollback)
             self.entries += weight
 
